@@ -51,6 +51,13 @@ Record job_case := {
 Definition mk (v c : fvec) (s : option (fvec * bool)) (st : dstate) (f : bool) (p : nat) : ind float :=
   {| ivec := v; icosts := c; isigned := s; istate := st; ifeas := f; iprec := p |}.
 
+(* the job of one design in isolation (used for interleaved runs: 2-worker parallel, nested evaluation);
+   its global call numbers are its attempt numbers *)
+Definition par_design_case (signs : list bool) (v : fvec) (prec : nat) (outs : list (outcome float))
+           (cons : list (fvec * fvec)) (tape : list fvec) : job_case :=
+  {| k_signs := signs; k_outs := outs; k_cons := cons; k_tape := tape;
+     k_ops := [OpMk (mk v [] None Empty false prec); OpEval [0%nat]] |}.
+
 Fixpoint list_eqb {A : Type} (eqb : A -> A -> bool) (a b : list A) : bool :=
   match a, b with
   | [], [] => true
